@@ -656,6 +656,22 @@ impl Gen<'_> {
                 };
                 // null counts as false on either side and short-circuits `and` on the left
                 let l = if self.rng.chance(1, 4) { self.nullish_expr(depth + 1) } else { self.bool_expr(depth + 1) };
+                // an operand that ends the run with an error: the error must come out of the
+                // operator whichever side it is on (unless short-circuited away)
+                let failing = |g: &mut Self| -> Expr {
+                    let bad = if g.rng.chance(1, 2) {
+                        Expr::Index(Box::new(Expr::Arr(vec![num(1), num(2)])), Box::new(num(7)))
+                    } else {
+                        bin(BinOp::Divide, g.num_lit(), num(0))
+                    };
+                    bin(BinOp::Gt, bad, num(0))
+                };
+                if self.rng.chance(1, 24) {
+                    return bin(op, failing(self), r);
+                }
+                if self.rng.chance(1, 40) {
+                    return bin(op, l, failing(self));
+                }
                 bin(op, l, r)
             }
             3 => {
@@ -1345,11 +1361,12 @@ impl Gen<'_> {
     fn scope_probe_idiom(&mut self, out: &mut Vec<Stmt>) {
         self.budget -= 8;
         let x = self.fresh_name("sp");
-        let kind = self.rng.weighted(&[2, 2, 3, 4]); // num, str, array, array of arrays
+        let kind = self.rng.weighted(&[2, 2, 3, 4, 2]); // num, str, array, array of arrays, process command
         let (ty, outer_init, caller_init): (Ty, Expr, Expr) = match kind {
             0 => (Ty::Num, self.num_lit(), self.num_lit()),
             1 => (Ty::Str, self.str_lit(), self.str_lit()),
             2 => (Ty::arr(Ty::Num), Expr::Arr(vec![self.num_lit(), self.num_lit()]), Expr::Arr(vec![self.num_lit()])),
+            4 => (Ty::Cmd, call("command", vec![self.str_lit()]), call("command", vec![self.str_lit()])),
             _ => (
                 Ty::arr(Ty::arr(Ty::Num)),
                 Expr::Arr(vec![Expr::Arr(vec![self.num_lit()]), Expr::Arr(vec![self.num_lit(), self.num_lit()])]),
@@ -1374,6 +1391,11 @@ impl Gen<'_> {
                     0 => Stmt::Assign { name: x.clone(), value: bin(BinOp::Add, var(&x), plain("+")), decl: u32::MAX },
                     1 => shout(method(var(&x), "len", vec![])),
                     _ => shout(Expr::Str(StrLit::Template { segs: vec![Seg::Var { name: x.clone(), pad_l: 1, pad_r: 0, decl: u32::MAX }, Seg::Text("!".into())], quote: '"' })),
+                },
+                4 => match self.rng.weighted(&[4, 2, 1]) {
+                    0 => Stmt::Expr(method(var(&x), "arg", vec![self.str_lit()])),
+                    1 => shout(var(&x)),
+                    _ => Stmt::Expr(method(var(&x), "arg", vec![self.num_lit()])),
                 },
                 2 => match self.rng.weighted(&[3, 3, 1, 2, 1]) {
                     0 => Stmt::Expr(method(var(&x), "push", vec![self.num_lit()])),
